@@ -8,6 +8,7 @@ import Proofs.ProbingBuildBlank2
 import Proofs.ProbingBuildChainStep
 import Proofs.ProbingBuildChainSem
 import Proofs.ArpaOKCheck
+import Proofs.ProbingRestFold
 import Properties.C03
 /-! C03/C01 — the probing *builder* inside the model (`Model/ProbingBuild.lean` = lm/search_hashed.cc ReadNGrams,
 FindLower, AdjustLower, MarkLower, activate, unigram sign fix, missing-`<unk>` fix-up).
@@ -19,8 +20,12 @@ table-operation layer with its error classes (general), and **`probing_build_rep
 for every proper loadable ARPA**: blank chains of any length over a basis of any order (hypotheses: `ArpaOK'` incl.
 `unkBasis`, section order, distinct n-grams, hash injectivity per order, capacity).  `demoPruned_represents` /
 `demoPruned_end_to_end` instantiate them on a model with a two-level chain.  Excluded (known finding
-`blank-based-on-hallucinated-unk`): blanks based on a hallucinated `<unk>`.  `MaxRestBuild` (`rest = true`) is modelled
-and tied to the real structure by the differential check only. -/
+`blank-based-on-hallucinated-unk`): blanks based on a hallucinated `<unk>`.
+`MaxRestBuild` (`rest = true`, REST_MAX): `probing_rest_build_closed_partial` proves, for models without blanks, that the
+builder succeeds and stores `rest = max(prob, max over left extensions)` (`restOf`) next to the `NoRestBuild` payload;
+blank chains under `MaxRestBuild` and the repackaging as `Represents`/`FullScore.rest` are open (differential check only).
+Superseded, kept for the audit lists: `ProbingBuildRepresents` (def), `probing_end_to_end_partial`, `_closed`, `_blank1`,
+`_single`, `probing_chain_line_partial`. -/
 namespace KV.C03ProbingBuild
 open KV.Arpa KV.Table KV.Score KV.State KV.ProbingLM KV.ProbingBuild
 
@@ -395,5 +400,59 @@ theorem demoPruned_end_to_end (h : List Word) (st : State) (sf : StateFor demoPr
   probing_end_to_end sqc demoPruned 5 [4, 4, 4] (-100) demoPruned_ok (by decide +kernel) (by decide +kernel)
     (fun k k' _ _ hl h => hashOf_sqc_inj k k' hl h) demoPruned_caps
     (fun g g' hl _ h => hashOf_sqc_inj g g' hl h) h st sf w hw
+
+/-! ### `MaxRestBuild` (`RestProbingModel`, REST_MAX): models without blanks -/
+
+/-- **`probing_rest_build_closed_partial`** — `build … (rest := true)` (lm/value_build.hh `MaxRestBuild`: `SetRest`,
+`MarkExtends` raising `rest`, `kMarkEvenLower`/`MarkLower`) on every proper loadable ARPA **in which no blank is
+hallucinated** (`ClsC`: every n-gram of order ≥ 3 has its immediate suffix, i.e. suffix-closed models) and whose
+`<unk>` unigram is in the file (`unkHallucinated = false`; `hcount`: the vocabulary is the set of unigram lines).
+The builder returns `.ok s`, and `InvT`: every table and the unigram array of `s` hold for each stored key `k` the
+payload of the `NoRestBuild` run (`wantAll`: probability, back-off, sign bit, extension bit — the content of
+`probing_build_represents`) **with `rest = restOf a Sf k`**, the maximum of `val a k` (the key's own probability) and
+`val a k'` over all stored n-grams `k'` having `k` as reversed prefix, i.e. the n-grams that extend `k` to the left,
+transitively = `max(prob, max over left extensions' rest)`.  Proved through the real loops: `markLower_chain` (early
+exit justified by `restOf_mono`), `step_closedT`, the generic fold `inv_fold_gen`.
+Partial: (1) blank chains under `MaxRestBuild` (the `fillBlanks`/`markChain` loops with `rest = true`) are not covered;
+(2) the statement is at the payload level (`InvT` + `Final`), not yet repackaged as `Represents` with a rest function,
+so the corollary "`FullScore.rest` = `restOf`" is not stated; see design_notes/C03.md, round 10. -/
+theorem probing_rest_build_closed_partial (combine : Nat → Word → Nat) (a : Arpa) (nWords : Nat) (buckets : List Nat) (um : Rat)
+    (ok : ArpaOK' a nWords um) (hu : a.unkHallucinated = false)
+    (hcount : nWords ≤ (a.entries.filter fun p => p.1.length == 1).length)
+    (hcls : ∀ q ∈ ngramLines a, ClsC a q.1)
+    (hsorted : (ngramLines a).Pairwise (fun p q => p.1.length ≤ q.1.length))
+    (hdist : (a.entries.map (·.1)).Nodup)
+    (hinj : ∀ k k', IsKey a k → IsKey a k' → k.length = k'.length → hashOf combine k = hashOf combine k' → k = k')
+    (hcaps : ∀ m, (keysOf (foldKeys [] (ngramLines a)) m).length < capOf buckets m) :
+    ∃ s, build combine true a nWords buckets um = .ok s ∧
+      InvT combine a nWords (capOf buckets) (foldKeys [] (ngramLines a)) s ∧ Final a (foldKeys [] (ngramLines a)) :=
+  build_rest_inv_closed combine a nWords buckets um ok hu hcount hcls hsorted hdist hinj hcaps
+
+/-- what `InvT` says about one stored n-gram: it is found (its hash maps to an index) and the payload at that index is the
+`NoRestBuild` payload with `rest = restOf` -/
+theorem probing_rest_payload (combine : Nat → Word → Nat) (a : Arpa) (nWords : Nat) (caps : Nat → Nat) (Sf : List Key) (s : St)
+    (inv : InvT combine a nWords caps Sf s) (g : Key) (hg : g ∈ Sf) (h2 : 2 ≤ g.length) (hN : g.length ≤ a.order) :
+    ∃ M j, OrdInv (tbl a.order s g.length) M ∧ M (hashOf combine g) = some j ∧
+      (tbl a.order s g.length).pay.getD j default = { (wantW a Sf g) with rest := restOf a Sf g } := by
+  obtain ⟨M, hP⟩ := inv.tabs g.length h2 hN
+  obtain ⟨j, hj, hje, hM⟩ := hP.find_mem g ((mem_keysOf Sf _ g).mpr ⟨hg, rfl⟩)
+  refine ⟨M, j, hP.inv, hM, ?_⟩
+  rw [hP.pay j hj, hje]
+  have hne : ¬ g.length = 1 := by omega
+  simp [wantT, wantAll, hne]
+
+/-- … and about a unigram: `rest` of a word is the maximum over the word's probability and all stored n-grams ending in it -/
+theorem probing_rest_unigram (combine : Nat → Word → Nat) (a : Arpa) (nWords : Nat) (caps : Nat → Nat) (Sf : List Key) (s : St)
+    (inv : InvT combine a nWords caps Sf s) (w : Word) :
+    s.uni.getD w default = { (expU Sf w ((initUni a nWords).getD w default)) with rest := restOf a Sf [w] } := by
+  rw [inv.uni w]
+  simp [wantT, wantAll]
+
+/-- `restOf` is an upper bound of the probabilities of the key and of everything stored that extends it to the left, and
+it is the least one (it is their maximum) -/
+theorem restOf_is_max (a : Arpa) (S : List Key) (k : Key) :
+    val a k ≤ restOf a S k ∧ (∀ k' ∈ S, k <+: k' → val a k' ≤ restOf a S k) ∧
+    (∀ B, val a k ≤ B → (∀ k' ∈ S, k <+: k' → val a k' ≤ B) → restOf a S k ≤ B) :=
+  ⟨restOf_ge_self a S k, fun k' hk hp => restOf_ge_mem a S k k' hk hp, fun B h0 h => restOf_le a S k B h0 h⟩
 
 end KV.C03ProbingBuild
